@@ -231,8 +231,8 @@ def run_econ_unit(unit):
 
 
 # ---- the same clauses entered through the real reader: credit, price, ITC rate, fees and tax relief as the input lines state them ----------
-INPUT_SYM = ['PTC{p}', '{p}StartPrice', 'RITC', 'AnnualLicenseEtc', 'TaxRelief']       # numeric tokens that are solver variables
-INPUT_FIXED = {'totalcapcost': 80.0, 'oamtotalfixed': 3.0, '{p}EndPrice': 0.4, '{p}EscalationRate': 0.01, 'TotalGrant': 2.5, 'OtherIncentives': 1.5,
+INPUT_SYM = ['PTC{p}', '{p}StartPrice', '{p}EndPrice', '{p}EscalationRate', 'RITC', 'AnnualLicenseEtc', 'TaxRelief']       # numeric tokens that are solver variables
+INPUT_FIXED = {'totalcapcost': 80.0, 'oamtotalfixed': 3.0, 'TotalGrant': 2.5, 'OtherIncentives': 1.5,
                'FlatLicenseEtc': 0.75, 'RINFL': 0.03}
 
 
